@@ -52,7 +52,6 @@ func (e *Engine) scanExternWrites(callee *ssa.Function, cc *ssa.CallCommon, w *w
 type externFn func(e *Engine, st *State, fr *Frame, callee *ssa.Function, args []Val, rt types.Type, pos string, k callCont)
 type ifaceFn func(e *Engine, st *State, fr *Frame, recv Val, m *types.Func, args []Val, rt types.Type, pos string, k callCont)
 
-func (e *Engine) ifaceModel(recv Val, m *types.Func) ifaceFn { return nil }
 
 func (e *Engine) evalExtCall(x *Expr, se *SpecEnv) (Val, bool) { return Val{}, false }
 
